@@ -114,12 +114,16 @@ func check(prop, tier string) int {
 	violations := 0
 	replayTries := 0 // generic replays attempted for obligations without a model (bounded: each costs a solver run)
 	var curReplay *ReplaySpec
+	var curGeneric *vc.GenericTest
 	violate := func(obName, reason, body string, found bool) {
 		violations++
 		path := filepath.Join(replayDir, sanitizeFile(obName+"."+reason)+".json")
 		rec := map[string]interface{}{"property": prop, "obligation": obName, "reason": reason, "solver_output": body, "failing_input_found": found}
 		if curReplay != nil {
 			rec["replay"] = curReplay
+		}
+		if curGeneric != nil {
+			rec["generic_replay"] = curGeneric
 		}
 		b, _ := json.MarshalIndent(rec, "", " ")
 		os.WriteFile(path, b, 0o644)
@@ -275,10 +279,12 @@ func check(prop, tier string) int {
 			if ok, rep := o.TryReplay(repoRoot()); rep != "" {
 				body += "\n" + rep
 				found = ok
+				curGeneric = o.GenericTest
 			}
 		}
 		violate(o.Name, "obligation-"+r.Status, body, found)
 		curReplay = nil
+		curGeneric = nil
 	}
 	// replays of every listed finding of this property: an open one is expected to reproduce, a fixed one
 	// must not reproduce (if it does, the violation is back — reported with its concrete input).
